@@ -518,3 +518,31 @@ Theorem C03_tr_bufs_modified_aw : forall ext m t i bl blk lb msg a pb p m2 d fue
 Proof. exact tr_bufs_modified_aw. Qed.
 Print Assumptions C03_tr_bufs_modified_aw.
 End C03_translated_autowrite.
+
+(* the same guards stated over the REMEMBERED stamp alone -- any table, any state, no history, no ghost, no clock: whenever the file of a
+   slot is stamped later than the stamp the slot remembers, (1) a write without `!` of the current slot onto its own path, (2) leaving
+   the modified current slot by :e :n :b :!cmd :make without `!` (option on: the autowrite; off: "buffer modified"), (3) the loop of :q /
+   :xa without `!` at the first slot it has to save, are refused with table, directory and schedule untouched; and (4) an autowrite that
+   lets the command go on has left exactly the buffer's lines in the file its path denotes. *)
+Section C03_autowrite_remembered.
+Import IoAwDefs IoAwProps.
+Theorem C03_aw_guard_remembered :
+  (forall now isx rng lk a (x : gbuf) (rest : list gbuf) fs sch,
+     newer_rem lk fs x -> skips isx (fst x) = false -> path_of_arg (map fst (x :: rest)) a = Some (b_path (fst x)) ->
+     write_g now isx false rng lk a (x :: rest) fs sch = (SRefused, x :: rest, fs, sch)) /\
+  (forall now aw lk (x : gbuf) (rest : list gbuf) fs sch, newer_rem lk fs x -> b_dirty (fst x) = true ->
+     (forall a, edit_g bufs_modified now aw false lk a (x :: rest) fs sch = (SRefused, x :: rest, fs, sch)) /\
+     (forall i, buffer_g bufs_modified now aw false lk i (x :: rest) fs sch = (SRefused, x :: rest, fs, sch)) /\
+     (forall ops, exec_g bufs_modified now aw lk ops (x :: rest) fs sch = (SRefused, x :: rest, lk, fs, sch))) /\
+  (forall now aw all lk (pre : list gbuf) (x : gbuf) (rest : list gbuf) fs sch,
+     Forall (fun y : gbuf => all = false /\ b_dirty (fst y) = false) pre ->
+     newer_rem lk fs x -> (all = true \/ b_dirty (fst x) = true) ->
+     quit_scan bufs_modified now aw all false lk (pre ++ x :: rest) fs sch = (Some (length pre), SRefused, pre ++ x :: rest, fs, sch)) /\
+  (forall now lk x fs sch blk st x' fs' r,
+     bm_g bufs_modified now true lk x fs sch = (blk, st, x', fs', r) -> b_dirty (fst x) = true -> blk = false ->
+     st = SOk /\ exists q, resolve lk (b_path (fst x)) = Some q /\ fs_content fs' q = Some (concat (b_lines (fst x)))).
+Proof.
+  split; [exact write_g_newer_rem|]. split; [exact leave_newer_rem|]. split; [exact quit_scan_newer_rem | exact bm_g_ok_exact].
+Qed.
+Print Assumptions C03_aw_guard_remembered.
+End C03_autowrite_remembered.
